@@ -1058,10 +1058,7 @@ class PE:
             sm = sub.run_function(fdef, args=list(args), kwargs={k[1]: k[2] for k in kw})
         except Unsupported:
             return None
-        effs = sm.effects
-        if len(effs) == 1 and effs[0][0] == 'exit' and effs[0][1] == 'return' and not effs[0][3]:
-            return effs[0][2]
-        return None
+        return effects_value(sm.effects)
 
     def fold_builtin(self, name, args):
         try:
@@ -1699,6 +1696,21 @@ class PE:
         self.exec_block(stmts, env, effects)
         self.sm.env = env
         return self.sm
+
+
+def effects_value(effs):
+    """The value a pure function returns, if its summary is a tree of `if` nodes ending in effect-free returns."""
+    effs = [e for e in effs if not (e[0] == 'assert' and False)]
+    if len(effs) != 1:
+        return None
+    e = effs[0]
+    if e[0] == 'exit' and e[1] == 'return' and not e[3]:
+        return e[2]
+    if e[0] == 'if':
+        a, b = effects_value(list(e[2])), effects_value(list(e[3]))
+        if a is not None and b is not None:
+            return mk_ite(e[1], a, b)
+    return None
 
 
 def substitute(t, sub, opts=None):
